@@ -330,10 +330,38 @@ macro_rules! with_bounds {
     }};
 }
 
+thread_local! {
+    /// which container types the sinks collect into (read when a parser is BUILT): 0 = Vec / [T; N],
+    /// 1 = Box<Vec> / Box<[T; N]>, 2 = VecDeque / Box<Box<[T; N]>>, 3 = LinkedList / RefCell<Vec> for enumerate,
+    /// 4 = RefCell<Vec> / Cell<Vec> for enumerate
+    pub static FLAVOUR: std::cell::Cell<u8> = const { std::cell::Cell::new(0) };
+}
+pub const FLAVOURS: [&str; 5] = ["", "box", "box2-deque", "linkedlist", "refcell"];
+
 fn apply_sink<'a, T: Tracked, P>(p: P, sink: &Sink) -> BP<'a, T>
 where
     P: IterParser<'a, I<'a>, T, Ex<'a>> + Parser<'a, I<'a>, (), Ex<'a>> + Clone + 'a,
 {
+    use std::cell::{Cell, RefCell};
+    use std::collections::{LinkedList, VecDeque};
+    match (FLAVOUR.with(|f| f.get()), sink) {
+        (1, Sink::Vec) => return p.collect::<Box<Vec<T>>>().map(|v| T::list(*v)).boxed(),
+        (2, Sink::Vec) => return p.collect::<VecDeque<T>>().map(|v| T::list(v.into_iter().collect())).boxed(),
+        (3, Sink::Vec) => return p.collect::<LinkedList<T>>().map(|v| T::list(v.into_iter().collect())).boxed(),
+        (4, Sink::Vec) => return p.collect::<RefCell<Vec<T>>>().map(|v| T::list(v.into_inner())).boxed(),
+        (3, Sink::Enumerate) => return p.enumerate().collect::<RefCell<Vec<(usize, T)>>>().map(|v| T::list(v.into_inner().into_iter().map(|(i, x)| T::pair(T::num(i), x)).collect())).boxed(),
+        (4, Sink::Enumerate) => return p.enumerate().collect::<Cell<Vec<(usize, T)>>>().map(|v| T::list(v.into_inner().into_iter().map(|(i, x)| T::pair(T::num(i), x)).collect())).boxed(),
+        (1, Sink::Exactly(0)) => return p.collect_exactly::<Box<[T; 0]>>().map(|a| T::list((*a).into())).boxed(),
+        (1, Sink::Exactly(1)) => return p.collect_exactly::<Box<[T; 1]>>().map(|a| T::list((*a).into())).boxed(),
+        (1, Sink::Exactly(2)) => return p.collect_exactly::<Box<[T; 2]>>().map(|a| T::list((*a).into())).boxed(),
+        (1, Sink::Exactly(3)) => return p.collect_exactly::<Box<[T; 3]>>().map(|a| T::list((*a).into())).boxed(),
+        (2, Sink::Exactly(1)) => return p.collect_exactly::<Box<Box<[T; 1]>>>().map(|a| T::list((**a).into())).boxed(),
+        (2, Sink::Exactly(2)) => return p.collect_exactly::<Box<Box<[T; 2]>>>().map(|a| T::list((**a).into())).boxed(),
+        (2, Sink::Exactly(3)) => return p.collect_exactly::<Box<Box<[T; 3]>>>().map(|a| T::list((**a).into())).boxed(),
+        // `()` as a container: every item is dropped as it arrives
+        (3 | 4, Sink::Count) => return p.collect::<()>().map(|()| T::unit()).boxed(),
+        _ => {}
+    }
     match sink {
         Sink::Vec => p.collect::<Vec<T>>().map(|v| T::list(v)).boxed(),
         Sink::Count => p.count().map(|n| T::num(n)).boxed(),
@@ -659,31 +687,59 @@ pub fn run_class<T: Tracked>(unit: &str, cname: &str, gs: &[G], alpha: &[char], 
     r
 }
 
-pub fn run(unit: &str, tier: Tier, cx: &ShardCtx) -> UnitResult {
+/// `drops[-zst]-<class>[@<container flavour>]`
+fn split_unit(unit: &str) -> (bool, String, u8) {
     let rest = unit.strip_prefix("drops-").unwrap_or(unit);
-    let (zst, cname) = match rest.strip_prefix("zst-") {
-        Some(c) => (true, c),
-        None => (false, rest),
+    let (rest, fl) = match rest.split_once('@') {
+        Some((r, f)) => (r, FLAVOURS.iter().position(|x| *x == f).unwrap_or_else(|| panic!("unknown container flavour {f}")) as u8),
+        None => (rest, 0),
     };
+    match rest.strip_prefix("zst-") {
+        Some(c) => (true, c.to_string(), fl),
+        None => (false, rest.to_string(), fl),
+    }
+}
+
+pub fn run(unit: &str, tier: Tier, cx: &ShardCtx) -> UnitResult {
+    let (zst, cname, fl) = split_unit(unit);
+    FLAVOUR.with(|f| f.set(fl));
     for (n, gs, alpha, len) in classes(tier) {
         if n == cname {
-            return if zst { run_class::<Zg>(unit, n, &gs, &alpha, len, cx, None) } else { run_class::<TV>(unit, n, &gs, &alpha, len, cx, None) };
+            let mut r = if zst { run_class::<Zg>(unit, n, &gs, &alpha, len, cx, None) } else { run_class::<TV>(unit, n, &gs, &alpha, len, cx, None) };
+            if fl != 0 {
+                r.desc = format!("{}; sinks collect into the `{}` containers (Box<Vec> / Box<[T; N]>, VecDeque / Box<Box<[T; N]>>, LinkedList, RefCell / Cell<Vec>, `()`)", r.desc, FLAVOURS[fl as usize]);
+            }
+            FLAVOUR.with(|f| f.set(0));
+            return r;
         }
     }
     panic!("unknown unit {unit}")
 }
 
 pub fn unit_names() -> Vec<&'static str> {
-    vec!["drops-k01", "drops-kext-recovery", "drops-k02-sinks", "drops-kgroup-deep", "drops-zst-k01", "drops-zst-kext-recovery", "drops-zst-k02-sinks", "drops-zst-kgroup-deep"]
+    vec![
+        "drops-k01",
+        "drops-kext-recovery",
+        "drops-k02-sinks",
+        "drops-kgroup-deep",
+        "drops-zst-k01",
+        "drops-zst-kext-recovery",
+        "drops-zst-k02-sinks",
+        "drops-zst-kgroup-deep",
+        "drops-k02-sinks@box",
+        "drops-kgroup-deep@box",
+        "drops-zst-kgroup-deep@box",
+        "drops-k02-sinks@box2-deque",
+        "drops-kgroup-deep@box2-deque",
+        "drops-k02-sinks@linkedlist",
+        "drops-k02-sinks@refcell",
+    ]
 }
 
 pub fn replay(v: &Value) -> Result<Option<String>, String> {
     let unit = v["unit"].as_str().ok_or("no unit")?.to_string();
-    let rest = unit.strip_prefix("drops-").unwrap_or(&unit).to_string();
-    let (zst, cname) = match rest.strip_prefix("zst-") {
-        Some(c) => (true, c.to_string()),
-        None => (false, rest.clone()),
-    };
+    let (zst, cname, fl) = split_unit(&unit);
+    FLAVOUR.with(|f| f.set(fl));
     let g = cvm::ast::parse_g(v["grammar"].as_str().ok_or("no grammar")?)?;
     let input: Vec<char> = v["input"].as_str().ok_or("no input")?.chars().collect();
     let progress = |_: usize| {};
